@@ -64,7 +64,7 @@ func (n *DeferExpressionNode) String() string {
 	var buff strings.Builder
 
 	buff.WriteString("defer ")
-	buff.WriteString(n.Expression.String())
+	writeExpressionWithoutModifier(&buff, n.Expression)
 
 	return buff.String()
 }
